@@ -222,6 +222,15 @@ impl JsVal {
             _ => false,
         }
     }
+    pub fn has_cycle(&self) -> bool {
+        match self {
+            JsVal::Cyclic | JsVal::CyclicArr => true,
+            JsVal::Arr(v) | JsVal::Set(v) => v.iter().any(|x| x.has_cycle()),
+            JsVal::Obj(kv, _) => kv.iter().any(|(_, x)| x.has_cycle()),
+            JsVal::Map(kv) => kv.iter().any(|(a, b)| a.has_cycle() || b.has_cycle()),
+            _ => false,
+        }
+    }
     pub fn has_hostile_key(&self) -> bool {
         match self {
             JsVal::Obj(kv, _) => kv.iter().any(|(k, v)| HOSTILE.contains(&k.as_str()) || v.has_hostile_key() || matches!(v, JsVal::Str(s) if HOSTILE.contains(&s.as_str()))),
